@@ -249,6 +249,7 @@ class ReAuthRequest(ReAuth):
         self.header.is_request = True
         self.header.is_proxyable = True
 
+        setattr(self, "state_class", [])
         setattr(self, "auth_application_id", 0)
         setattr(self, "proxy_info", [])
         setattr(self, "route_record", [])
